@@ -469,7 +469,8 @@ def property_on_impl(case, base, rng):
     # (b) scaling law: times and population sizes times c (growth rates / c) => log p - (n-1) ln c
     # (a change of the unit of time by many orders of magnitude — years to seconds, generations to millions of
     #  years — is the scaling law at work: sums of logarithms must not be computed as logarithms of products)
-    for c in (rng.choice([0.5, 2.0, 4.0]), rng.choice([3.7, 0.3]), 10.0 ** rng.choice([-9, -7, 6, 8])):
+    big = min(12, max(6, -(-340 // max(1, n - 1))))      # enough for a product of n-1 sizes to leave the double range
+    for c in (rng.choice([0.5, 2.0, 4.0]), rng.choice([3.7, 0.3]), 10.0 ** (rng.choice([-1, 1]) * big)):
         try:
             v = impl_dist(case, tips=[c * t for t in case["tips"]],
                           coals=[[c * t for t in row] for row in case["coals"]],
